@@ -1224,10 +1224,13 @@ impl<'a> Gen<'a> {
                     let op = ops[self.t.below(ops.len())];
                     // rhs type: same kind, or int into a float target
                     let rty = if v.ty == Ty::Float && self.t.chance(1, 3) { Ty::Int } else { v.ty.clone() };
+                    let min = if sw.aug_compound_rhs { 0 } else { P_ATOM };
                     let e = if matches!(op, BinOp::FloorDiv | BinOp::Mod | BinOp::Div) {
-                        self.divisor(&rty, depth, 0)
+                        self.divisor(&rty, depth, min)
+                    } else if rty != v.ty && !sw.aug_compound_rhs {
+                        self.mixed_int_operand(depth, P_ATOM)
                     } else {
-                        self.expr(&rty, depth, 0)
+                        self.expr(&rty, depth, min)
                     };
                     vec![Stmt::Aug { name: v.name, op, e }]
                 } else {
@@ -1364,7 +1367,18 @@ impl<'a> Gen<'a> {
                 } else {
                     self.tag("list_set_index");
                     self.pure_only += 1;
-                    let idx = self.index_expr(depth);
+                    let mut idx = self.index_expr(depth);
+                    if !sw.setindex_self_ref {
+                        let mut refs_self = false;
+                        walk_expr(&idx, &mut |x| {
+                            if matches!(x, Expr::Var(n) if *n == v.name) {
+                                refs_self = true;
+                            }
+                        });
+                        if refs_self {
+                            idx = Expr::Int(0);
+                        }
+                    }
                     let e = self.expr(&Ty::Int, depth, 0);
                     self.pure_only -= 1;
                     vec![Stmt::SetIndex { name: v.name, idx, e }]
@@ -1420,7 +1434,10 @@ impl<'a> Gen<'a> {
                     let nf = self.models[m].fields.len();
                     let f = self.t.below(nf);
                     let fty = self.models[m].fields[f].0.clone();
-                    let e = if fty == Ty::Str && !sw.str_reassign { self.str_lit(false) } else { self.ctor_arg(&fty, depth) };
+                    if fty == Ty::Str && !sw.str_reassign {
+                        return vec![self.print_stmt(depth)];
+                    }
+                    let e = self.ctor_arg(&fty, depth);
                     vec![Stmt::FieldSet { name, model: m, field: f, e }]
                 }
             }
@@ -1640,7 +1657,8 @@ impl<'a> Gen<'a> {
                         continue;
                     }
                     if fty.is_num() && self.t.chance(1, 2) {
-                        let e = self.expr(&fty, 1, 0);
+                        let min = if self.cfg.sw.aug_compound_rhs { 0 } else { P_ATOM };
+                        let e = self.expr(&fty, 1, min);
                         body.push(Stmt::SelfFieldAug { field: f, op: [BinOp::Add, BinOp::Sub, BinOp::Mul][self.t.below(3)], e });
                     } else {
                         let e = self.expr(&fty, 1, 0);
